@@ -22,9 +22,16 @@ def run(ctx):
     shapes = [s for s in IC.SHAPES if s != "strent"]      # (strent: text mode only, C20)
     # (i) scanning semantics
     cfg = dict(lit=LIT, shapes=shapes[:7] if quick else shapes, contexts=["text", "dqattr"] if quick else ["text", "dqattr", "sqattr", "cdata"],
-               maxparts=3 if quick else 4, maxdol=3 if quick else 4, maxstack=0)
+               maxparts=3, maxdol=3 if quick else 4, maxstack=0)
+    # (thorough: all shapes, four contexts, three parts -- about 10^5 texts; four parts over this alphabet would be 3 * 10^6
+    # records of a kilobyte each, which no process here can hold: texts of four parts come over smaller alphabets below)
     recs = IC.run_spec(ctx, "InterpScan", cfg)
     IC.replay(ctx, recs, "scan")
+    if not quick:
+        cfg = dict(lit=["lb", "rb", "x", "nl"], shapes=["call", "strbrace", "dictlit", "fstring"], contexts=["text", "dqattr", "cdata"],
+                   maxparts=4, maxdol=2, maxstack=0)
+        recs = IC.run_spec(ctx, "InterpScan4", cfg)
+        IC.replay(ctx, recs, "scan4")
     if quick:
         cfg = dict(lit=["x", "rb"], shapes=shapes[7:], contexts=["text", "sqattr", "comment", "cdata"], maxparts=3, maxdol=2, maxstack=0)
         recs = IC.run_spec(ctx, "InterpScan2", cfg)
